@@ -15,6 +15,8 @@ structure SpecSt where
   rounds : Nat := 0                   -- complete fair rounds since the last disturbance
   stable : Option String := none      -- dump at the last converged check since the last disturbance
   seen : List (List (Nat × Nat) × String) := []  -- converged dump per topology (sorted link list)
+  lastDump : List (Nat × String) := []  -- last observed dump per router
+  lastChange : Nat := 0               -- fair round (since the last disturbance) in which a table last changed
 
 structure St where
   net : Net := []
@@ -67,7 +69,7 @@ def has (l : List (Nat × Nat)) (p : Nat × Nat) : Bool := l.contains p
 
 def directedAll (sp : SpecSt) : List (Nat × Nat) := sp.links
 
-def disturb (sp : SpecSt) : SpecSt := { sp with rounds := 0, pending := sp.links, stable := none }
+def disturb (sp : SpecSt) : SpecSt := { sp with rounds := 0, pending := sp.links, stable := none, lastChange := 0 }
 
 def topoOf (sp : SpecSt) : Spec.Topo := { n := sp.n, adj := fun a b => sp.links.contains (a, b) }
 
@@ -121,6 +123,9 @@ def step (s : St) (op : String) (got : String) : StepResult St :=
         let sp' :=
           if got == "skip" then sp else
           let nbr := if sp.nbr.contains (a, b) then sp.nbr else (a, b) :: sp.nbr
+          let changed := ((sp.lastDump.find? (·.1 == a)).map (·.2)) != some got
+          let sp := { sp with lastDump := (a, got) :: sp.lastDump.filter (·.1 != a),
+                              lastChange := if changed then sp.rounds + 1 else sp.lastChange }
           let pend := sp.pending.filter fun p => p != (a, b)
           if pend.isEmpty then { sp with nbr := nbr, pending := sp.links, rounds := sp.rounds + 1 }
           else { sp with nbr := nbr, pending := pend }
@@ -192,6 +197,7 @@ def step (s : St) (op : String) (got : String) : StepResult St :=
     { st := { s with sp := sp' }, expected := some (dumpAll s.keys s.net),
       spec := finiteFails ++ spFails ++ stableFails ++ detFails,
       cov := (if converged then ["check-converged"] else ["check-early"]) ++
+             (if converged && sp.stable.isNone then [s!"rounds-to-fixed-point-{sp.lastChange}"] else []) ++
              (if converged && sp.stable.isSome then ["check-stable"] else []) ++
              (if converged && (sp.seen.find? (·.1 == sig)).isSome && sp.stable.isNone then ["check-same-topology-again"] else []) ++
              (if hasUnreach then ["unreachable-withdrawn"] else []),
